@@ -36,6 +36,9 @@ func harnessC36RoundTrip() {
 	bin := verif_nondet_bytes(n)
 	cfg := verif_nondet_bytes(m)
 	src, dst, out := verif_fs_path("src.bin"), verif_fs_path("dst.bin"), verif_fs_path("out.bin")
+	if verif_nondet_bool() {
+		dst = src // embedding in place is documented to work
+	}
 	verif_fs_write(src, bin)
 	err := AppendConfig(src, dst, cfg)
 	if err != nil {
